@@ -10,6 +10,7 @@ import (
 	"reflect"
 	"runtime"
 	"sync"
+	"time"
 )
 
 var (
@@ -353,3 +354,26 @@ func Choose(name string, lo, hi int) int {
 
 func UFSlice(fn, sym string, lenArg int) {}
 func QueryTimeout(ms int)                {}
+
+// ZoneDST returns a location whose single zone rule has the given total UTC offset and daylight-saving flag
+// (time.FixedZone never reports DST). Natively the location is built from a minimal TZif image.
+func ZoneDST(offsetSeconds int, dst bool) *time.Location {
+	if !dst {
+		return time.FixedZone("zone", offsetSeconds)
+	}
+	b := []byte("TZif")
+	b = append(b, 0)
+	b = append(b, make([]byte, 15)...)
+	be := func(v uint32) []byte { return []byte{byte(v >> 24), byte(v >> 16), byte(v >> 8), byte(v)} }
+	for _, n := range []uint32{0, 0, 0, 0, 1, 4} { // isutcnt isstdcnt leapcnt timecnt typecnt charcnt
+		b = append(b, be(n)...)
+	}
+	b = append(b, be(uint32(int32(offsetSeconds)))...)
+	b = append(b, 1, 0) // isdst, abbreviation index
+	b = append(b, 'D', 'S', 'T', 0)
+	loc, err := time.LoadLocationFromTZData("dstzone", b)
+	if err != nil {
+		panic(err)
+	}
+	return loc
+}
